@@ -13,12 +13,24 @@ func init() {
 }
 
 type vpRespWriter struct {
-	events []string // "header k=v", "status n", "write <body>"
+	events []string // "status n", "write <body>"
 	hdr    http.Header
+	// the response headers as they stood when the first body bytes were written (what is sent)
+	ctAtWrite, acaoAtWrite string
+	wrote                  bool
 }
 
 func (w *vpRespWriter) Header() http.Header { return w.hdr }
 func (w *vpRespWriter) Write(b []byte) (int, error) {
+	if !w.wrote {
+		w.wrote = true
+		if v := w.hdr["Content-Type"]; len(v) > 0 {
+			w.ctAtWrite = v[0]
+		}
+		if v := w.hdr["Access-Control-Allow-Origin"]; len(v) > 0 {
+			w.acaoAtWrite = v[0]
+		}
+	}
 	w.events = append(w.events, "write "+string(b))
 	return len(b), nil
 }
@@ -58,12 +70,7 @@ func vpH_C20_mux() {
 	if accept != "" {
 		reqHdr["Accept"] = []string{accept}
 	}
-	vpStub("(net/http.Header).Add", func(h http.Header, key, value string) {
-		w.events = append(w.events, "header "+key+"="+value)
-	})
-	vpStub("(net/http.Header).Set", func(h http.Header, key, value string) {
-		w.events = append(w.events, "header "+key+"="+value)
-	})
+	// response headers: the real header map of the writer (Add, Set or direct appends all end up there)
 	vpStub("(*github.com/high-moctane/mocrelay.Relay).ServeHTTP", func(r *Relay, rw http.ResponseWriter, req *http.Request) { relayCalls++ })
 	var marshalled []any
 	vpStub("encoding/json.Marshal", func(v any) ([]byte, error) {
@@ -86,22 +93,19 @@ func vpH_C20_mux() {
 	isUpgrade := upgrade != ""
 	isNIP11 := accept == "application/nostr+json"
 	if isUpgrade {
-		vpAssert(relayCalls == 1 && len(w.events) == 0 && def.calls == 0, "C20.upgrade-goes-to-the-relay")
+		vpAssert(relayCalls == 1 && len(w.events) == 0 && len(w.hdr) == 0 && def.calls == 0, "C20.upgrade-goes-to-the-relay")
 	} else if isNIP11 {
 		vpAssert(relayCalls == 0 && def.calls == 0, "C20.nip11-not-routed-elsewhere")
 		if hasDoc {
+			if len(marshalled) == 0 {
+				vpUnsupported("the document is not encoded through json.Marshal: outside the JSON environment of this harness")
+			}
 			vpAssert(len(marshalled) == 1 && marshalled[0] == any(doc), "C20.nip11-document-is-the-configuration")
 			// both headers are set before the body is written, the body is the encoded document,
 			// written once; further headers are the implementation's business
-			ct, acao, body := -1, -1, -1
-			nbody := 0
+			body, nbody := -1, 0
 			for i, ev := range w.events {
-				switch {
-				case ev == "header Content-Type=application/nostr+json":
-					ct = i
-				case ev == "header Access-Control-Allow-Origin=*":
-					acao = i
-				case len(ev) >= 6 && ev[:6] == "write ":
+				if len(ev) >= 6 && ev[:6] == "write " {
 					nbody++
 					if body < 0 {
 						body = i
@@ -109,7 +113,7 @@ func vpH_C20_mux() {
 				}
 			}
 			vpAssert(nbody == 1 && body >= 0 && w.events[body] == "write DOC", "C20.nip11-response-shape")
-			vpAssert(ct >= 0 && acao >= 0 && ct < body && acao < body, "C20.nip11-headers-then-body")
+			vpAssert(w.ctAtWrite == "application/nostr+json" && w.acaoAtWrite == "*", "C20.nip11-headers-then-body")
 		}
 		// no document configured: what is answered is not stated (only that it is not routed elsewhere)
 	} else {
